@@ -1062,6 +1062,171 @@ def rule_sl_transpose(chk, prog):
 
 
 # ----------------------------------------------------------------------------
+# rule: evaluation routines do not reuse call-history state without looking at the data
+# ----------------------------------------------------------------------------
+META_ATTRS = {"shape", "strides", "ctypes", "data", "size", "dtype", "ndim", "nbytes", "flags", "base", "itemsize"}
+
+
+def _self_store_attr(t):
+    """self.A = / self.A[..] = / self.A.b =   -> 'A'"""
+    while isinstance(t, (ast.Subscript, ast.Attribute)):
+        if pf.is_self_attr(t):
+            return t.attr
+        t = t.value
+    return None
+
+
+def state_written(fn):
+    out = {}
+    for n in pf.walk_no_nested(fn):
+        tgts = []
+        if isinstance(n, ast.Assign):
+            tgts = n.targets
+        elif isinstance(n, (ast.AugAssign, ast.AnnAssign)):
+            tgts = [n.target]
+        for t in tgts:
+            for e in (t.elts if isinstance(t, (ast.Tuple, ast.List)) else [t]):
+                a = _self_store_attr(e)
+                if a is not None:
+                    out.setdefault(a, []).append(n)
+    return out
+
+
+def data_kinds(fn, arrays):
+    """name -> subset of {'content','meta'}: how a local depends on the array arguments"""
+    kinds = {}
+
+    def kind(e):
+        out = set()
+        if isinstance(e, ast.Attribute) and isinstance(e.value, ast.Name) and e.value.id in arrays and e.attr in META_ATTRS:
+            return {"meta"}
+        if isinstance(e, ast.Call) and pf.call_name(e) in ("id", "len") and len(e.args) == 1 \
+                and isinstance(e.args[0], ast.Name) and e.args[0].id in arrays:
+            return {"meta"}
+        if isinstance(e, ast.Name):
+            if e.id in arrays:
+                return {"content"}
+            return set(kinds.get(e.id, ()))
+        for c in ast.iter_child_nodes(e):
+            if isinstance(c, (ast.expr, ast.keyword, ast.comprehension)):
+                out |= kind(c if not isinstance(c, ast.keyword) else c.value)
+        return out
+
+    for _ in range(4):
+        for n in pf.walk_no_nested(fn):
+            if isinstance(n, ast.Assign):
+                k = kind(n.value)
+                for t in n.targets:
+                    for x in ast.walk(t):
+                        if isinstance(x, ast.Name) and isinstance(x.ctx, ast.Store):
+                            kinds[x.id] = set(kinds.get(x.id, ())) | k
+            elif isinstance(n, ast.AugAssign) and isinstance(n.target, ast.Name):
+                kinds[n.target.id] = set(kinds.get(n.target.id, ())) | kind(n.value)
+    return kind
+
+
+def rule_stateless(chk, prog):
+    targets = []
+    mod = prog.module(TD)
+    for cname in registry_classes(mod):
+        cls = mod.cls(cname)
+        feat, der = map_routines(prog, mod, cls)
+        targets.append((TD, mod, cls, {"fill_feat_": feat, "fill_deriv_": der}))
+    nmod, ncls = normalizer_classes(prog)
+    for cls in ncls:
+        rs = {}
+        for nm in ("fill_fwd", "fill_bwd", "get_normed_feature_deriv"):
+            r = prog.find_method(nmod, cls, nm)
+            if r is not None and r[1].name != "FeatNormalizer":
+                rs[nm] = hinline.inline_helpers(r[2], hinline.class_resolver(prog, nmod, cls))
+        targets.append((FN, nmod, cls, rs))
+    for rel, m, cls, routines in targets:
+        written = {}
+        for nm, fn in routines.items():
+            for a, nodes in state_written(fn).items():
+                written.setdefault(a, []).append(nm)
+        if not written:
+            chk.ok("stateless", "%s: evaluation routines keep no state on self" % cls.name, nontrivial=False)
+            continue
+        for nm, fn in routines.items():
+            arrays = {a.arg for a in fn.args.args[1:]}
+            kind = data_kinds(fn, arrays)
+            own = state_written(fn)
+            for n in pf.walk_no_nested(fn):
+                if not (pf.is_self_attr(n) and isinstance(n.ctx, ast.Load) and n.attr in written):
+                    continue
+                p = pf.parent(n)
+                if isinstance(p, (ast.Subscript, ast.Attribute)) and isinstance(getattr(p, "ctx", None), ast.Store):
+                    continue
+                attr = n.attr
+                # reads inside the test that decides the refresh are the validation itself
+                st = n
+                in_test = False
+                while st is not None and st is not fn:
+                    par = pf.parent(st)
+                    if isinstance(par, (ast.If, ast.IfExp, ast.While)) and par.test is st:
+                        in_test = True
+                    st = par
+                if in_test:
+                    continue
+                inst = "%s.%s reads self.%s (written by %s)" % (cls.name, nm, attr, "/".join(sorted(set(written[attr]))))
+                # fresh: an unconditional store to self.attr earlier in this routine's top-level statements
+                top = None
+                cur = n
+                while pf.parent(cur) is not fn and pf.parent(cur) is not None:
+                    cur = pf.parent(cur)
+                top = cur
+                fresh = False
+                for s0 in fn.body:
+                    if s0 is top:
+                        break
+                    if any(s0 is w for w in own.get(attr, [])):
+                        fresh = True
+                if fresh:
+                    chk.ok("stateless", inst + " after recomputing it in the same call")
+                    continue
+                guards = []
+                for w in own.get(attr, []):
+                    g = pf.parent(w)
+                    while g is not None and g is not fn:
+                        if isinstance(g, ast.If):
+                            guards.append(g)
+                        g = pf.parent(g)
+                def always_true(t):
+                    if isinstance(t, ast.Constant):
+                        return bool(t.value)
+                    if isinstance(t, ast.BoolOp):
+                        vals = [always_true(v) for v in t.values]
+                        return any(vals) if isinstance(t.op, ast.Or) else all(vals)
+                    return False
+
+                if guards and all(always_true(g.test) for g in guards):
+                    chk.ok("stateless", inst + " after an unconditional refresh in the same call")
+                    continue
+                if not guards:
+                    chk.violation("stateless", rel, "%s.%s" % (cls.name, nm), "self.%s" % attr, n.lineno,
+                                  "%s uses self.%s, which is written by %s of an earlier call, without recomputing or "
+                                  "validating it: the result depends on the call history, not only on the arguments" % (
+                                      nm, attr, "/".join(sorted(set(written[attr])))), instance=inst)
+                    continue
+                ks = set()
+                for g in guards:
+                    ks |= kind(g.test)
+                if "content" in ks:
+                    chk.note("stateless", "%s:%s.%s" % (rel, cls.name, nm),
+                             "self.%s is reused under a test that reads the array contents; not decided" % attr)
+                    chk.ok("stateless", inst + " under a content-dependent test (not decided)", nontrivial=False)
+                else:
+                    chk.violation("stateless", rel, "%s.%s" % (cls.name, nm), "self.%s" % attr, n.lineno,
+                                  "%s reuses self.%s (computed by %s of an earlier call) unless `%s`; that test looks "
+                                  "only at %s, never at the values in the array, so a buffer that was refilled in place "
+                                  "(or an address handed out again) gets the derivative factors of the old contents" % (
+                                      nm, attr, "/".join(sorted(set(written[attr]))), pf.src(guards[0].test)[:90],
+                                      "the memory address / shape / strides of the argument" if "meta" in ks
+                                      else "object state"), instance=inst)
+
+
+# ----------------------------------------------------------------------------
 # rule: mask symmetry between value, forward-mode and reverse-mode list routines
 # ----------------------------------------------------------------------------
 LIST_ROUTINES = (
@@ -1153,6 +1318,8 @@ def analyse(chk):
                              "column k in get_derivative_wrt_unnormed_features")
     chk.rule("mask-sym", "value, forward-mode and reverse-mode list routines overwrite their output under the same "
                          "live masks (a mask taken from an already clamped quantity is dead)")
+    chk.rule("stateless", "evaluation routines do not reuse state written by an earlier call unless a test that "
+                          "reads the array contents validates it")
     chk.rule("list-iter", "FeatureList pairs row i of y / dfdy with feat_list[i] and passes dfdx / x whole")
     chk.guard(rule_maps_structure, prog)
     chk.guard(rule_clamp, prog)
@@ -1161,6 +1328,7 @@ def analyse(chk):
     chk.guard(rule_normalizers, prog)
     chk.guard(rule_sl_transpose, prog)
     chk.guard(rule_mask_symmetry, prog)
+    chk.guard(rule_stateless, prog)
     try:
         chk.count("map classes", len(registry_classes(prog.module(TD))))
     except core.AnalysisError:
@@ -1173,6 +1341,7 @@ def analyse(chk):
     chk.floor("transpose", 8, "4 normaliser classes x (dx, fill_fwd factor) at least")
     chk.floor("sl-transpose", 8, "4 slmode branches x (rho, inh)")
     chk.floor("mask-sym", 4, "4 slmode branches")
+    chk.floor("stateless", 12, "21 map classes + 4 normaliser classes")
     chk.floor("list-iter", 2, "__call__, fill_vals_, fill_derivs_")
     chk.assumptions += [
         "numeric literals are dimensionless; clamp literals, literal 0 and additive regularisers <= 1e-6 are unit-polymorphic",
@@ -1248,6 +1417,10 @@ def mutants(tree):
           "        dfdx[i] -= dfdy * (\n            (gammai**2 * np.sqrt(gammaj / (1 + gammaj * x[j])) * x[k])\n            / (1 + gammai * x[i]) ** 2\n        )\n",
           "        dfdx[[i, j]] -= dfdy * (\n            (gammai**2 * np.sqrt(gammaj / (1 + gammaj * x[j])) * x[k])\n            / (1 + gammai * x[i]) ** 2\n        ) * np.array([1.0, 0.0])[:, None]\n",
           expect="accumulate"),
+        M("SignedUMap caches its denominator per memory block (key = address, shape, strides)", TD,
+          "    def fill_feat_(self, y, x):\n        i = self.i\n        y[:] = x[i] / np.sqrt(self.gamma + x[i] * x[i])\n\n    def fill_deriv_(self, dfdx, dfdy, x):\n        i = self.i\n        dfdx[i] += dfdy * self.gamma / (self.gamma + x[i] * x[i]) ** 1.5\n",
+          "    _key = None\n    _den = None\n\n    def _get_den(self, x, refresh=False):\n        key = (x.ctypes.data, x.shape, x.strides)\n        if refresh or self._den is None or key != self._key:\n            self._den = self.gamma + x[self.i] * x[self.i]\n            self._key = key\n        return self._den\n\n    def fill_feat_(self, y, x):\n        i = self.i\n        y[:] = x[i] / np.sqrt(self._get_den(x, refresh=True))\n\n    def fill_deriv_(self, dfdx, dfdy, x):\n        i = self.i\n        dfdx[i] += dfdy * self.gamma / self._get_den(x) ** 1.5\n",
+          expect="stateless"),
         M("fill_vals_ writes every map into row 0", TD, "self.feat_list[i].fill_feat_(tdesc[i], xdesc)",
           "self.feat_list[i].fill_feat_(tdesc[0], xdesc)", count=2, expect="list-iter"),
     ]
